@@ -191,6 +191,13 @@ def scenario_sets(rng):
                 s.append(dict(nf=nf, deps=digraph(nf, g), fail=fail, inputs=inputs, recursive=rec, n=n, alias=g, policy="probe", reps=2 if quick else 6))
         s.append(dict(nf=nf, deps=digraph(nf, g), inputs=[["dir", 4]], recursive=True, n=2, alias=g, policy="probe", reps=2 if quick else 6))
     sets.append(("empty-poll probes (coordinator polls while tasks are outstanding)", s, None))
+    # gates inside the pass bodies: a task also parks before each of its commands (its output is truncated / partly written
+    # then), so that other tasks - e.g. a dependency being run again - can be scheduled into the middle of a reader's pass
+    s = []
+    for g in sample(0.3 if quick else 1.0):
+        for inputs, rec, n in (([["file", 1]], False, 2), ([["dir", 4]], True, 2), ([["file", 3], ["dir", 4]], True, 3), ([["file", 1], ["file", 2], ["file", 3]], False, 3)):
+            s.append(dict(nf=nf, deps=digraph(nf, g), inputs=inputs, recursive=rec, n=n, alias=g, policy="cmdgates", reps=4 if quick else 20))
+    sets.append(("random schedules with gates before every command (interleaving inside pass bodies)", s, None))
     s = []
     for i in range(40 if quick else 400):
         nf2 = rng.choice((3, 4))
